@@ -141,12 +141,18 @@ def observe(scn):
     w = common.import_wntr()
     try:
         wn = simnet.time_family_network(w, scn)
-        res, _ = simnet.run_wntr(w, wn)
-        df = res.link["status"]
         n = len(scn["init"])
-        return {"id": scn["id"], "times": [int(t) for t in df.index],
-                "st": [[int(df["P%d" % k].iloc[i]) for k in range(1, n + 1)] for i in range(len(df.index))],
-                "err": res.error_code is not None}
+        times, st, err = [], [], False
+        # a schedule may be run in parts (duration reached, run_sim called again with a new simulator): instants and rule
+        # grid must come out the same
+        for d in list(scn.get("pauses", [])) + [scn["Dur"]]:
+            wn.options.time.duration = d
+            res, _ = simnet.run_wntr(w, wn)
+            df = res.link["status"]
+            times += [int(t) for t in df.index]
+            st += [[int(df["P%d" % k].iloc[i]) for k in range(1, n + 1)] for i in range(len(df.index))]
+            err = err or res.error_code is not None
+        return {"id": scn["id"], "times": times, "st": st, "err": err}
     except Exception as e:
         return {"id": scn["id"], "exc": "%s: %s" % (type(e).__name__, str(e)[:200])}
 
@@ -311,6 +317,9 @@ def main(tier, replay):
     for i, s in enumerate(scns):
         s["id"] = i + 1
         s.setdefault("pauses", [])
+        if not replay and i % 8 == 3 and not s["pauses"]:
+            grid = list(range(0, s["Dur"], s["H"]))
+            s["pauses"] = sorted(rnd.sample(grid[:12], 1))           # run in two parts
     exp = expected_from_spec(scns, ck)
     det = [s for s in scns if exp[s["id"]]["det"]]
     ck.count("scenarios", len(scns))
